@@ -670,8 +670,9 @@ func churnScenario(r *rand.Rand) []HOp {
 // remuxScenario is what a remultiplexer does: a stream (a generated one with adaptation fields on any packet, or one the Muxer
 // wrote in a random history) is demultiplexed and every PES that comes out is handed to a new Muxer as it is — the parsed PESData
 // with its by-product fields (PES_packet_length, header length) and the first packet's parsed adaptation field (length, stuffing
-// length and one-byte-stuffing flag included). The second return value is the number of units handed over.
-func remuxScenario(r *rand.Rand, fromMuxer bool) ([]HOp, int) {
+// length and one-byte-stuffing flag included). units is the number of units handed over, parsedEntries the
+// number of streams announced with the PMT entry the demuxer returned (descriptors included).
+func remuxScenario(r *rand.Rand, fromMuxer bool) (ops []HOp, units int, parsedEntries int) {
 	var src []byte
 	types := map[uint16]astits.StreamType{}
 	if fromMuxer {
@@ -692,7 +693,14 @@ func remuxScenario(r *rand.Rand, fromMuxer bool) ([]HOp, int) {
 	run := RunDemux(src, baseCfg("data"))
 	var pids []uint16
 	var data []HOp
+	parsedES := map[uint16]*astits.PMTElementaryStream{}
 	for _, d := range run.Datas() {
+		if d.PMT != nil {
+			// the stream is announced as the source announced it: the parsed PMT entry, descriptors included
+			for _, es := range d.PMT.ElementaryStreams {
+				parsedES[es.ElementaryPID] = es
+			}
+		}
 		if d.PES == nil || d.FirstPacket == nil || d.PID < 0x20 || d.PID == 0x1000 || d.PID == 0x1fff || len(d.PES.Data) == 0 {
 			continue
 		}
@@ -711,12 +719,17 @@ func remuxScenario(r *rand.Rand, fromMuxer bool) ([]HOp, int) {
 		}
 		data = append(data, HOp{Kind: "data", PID: d.PID, Data: &astits.MuxerData{PID: d.PID, AdaptationField: d.FirstPacket.AdaptationField, PES: d.PES}})
 	}
-	var ops []HOp
 	for _, p := range pids {
-		ops = append(ops, HOp{Kind: "add", PID: p, ES: &astits.PMTElementaryStream{StreamType: types[p]}, Slot: -1})
+		es := &astits.PMTElementaryStream{StreamType: types[p]}
+		if pe := parsedES[p]; pe != nil && r.IntN(4) != 0 {
+			es = mon.Clone(pe)
+			es.ElementaryPID = 0 // set by the add operation
+			parsedEntries++
+		}
+		ops = append(ops, HOp{Kind: "add", PID: p, ES: es, Slot: -1})
 	}
 	if len(pids) > 0 {
 		ops = append(ops, HOp{Kind: "pcr", PID: pids[0]})
 	}
-	return append(ops, data...), len(data)
+	return append(ops, data...), len(data), parsedEntries
 }
